@@ -241,6 +241,7 @@ def run(ctx):
     plan['routed'] = True
     render_kind = ch.choice(['media', 'render_body', 'text'], 'render_kind')
     pre_vary = ch.choice([None, None, 'Accept-Encoding', 'Origin, Accept-Language'], 'pre_vary')
+    pre_same = ch.draw(4, 'headers_of_the_same_name_set_before') == 3
     # an earlier request on the same app that ends in a header-bearing built-in error
     pre_kind = ch.choice([None, None, 'method_not_allowed', 'unauthorized', 'too_many', 'range', 'unavailable'],
                          'pre_request')
@@ -290,7 +291,7 @@ def run(ctx):
                 'raise_site': raise_site, 'err': err_args, 'status': st_args, 'accept': accept,
                 'xml': xml_on, 'custom_media': custom_on, 'custom_fast': custom_fast, 'doc_fail': doc_fail,
                 'asgi': asgi, 'stack': plan,
-                'render_kind': render_kind, 'pre_vary': pre_vary, 'hostile_str': hostile,
+                'render_kind': render_kind, 'pre_vary': pre_vary, 'pre_same': pre_same, 'hostile_str': hostile,
                 'pre_request': pre_kind, 'unreadable_body': unreadable, 'stale_kind': stale_kind,
                 'stale_stream': stale_stream}
     ctx.plan_key = json.dumps(ctx.plan, sort_keys=True, default=repr)
@@ -352,6 +353,12 @@ def run(ctx):
                 resp.stream = _StaleStream() if not asgi else _stale_agen()
             if pre_vary:
                 resp.set_header('Vary', pre_vary)
+            if pre_same:
+                # headers of the names the error brings along were already set earlier in the request:
+                # the error's own values replace them
+                resp.set_header('X-Err', 'set before the error')
+                resp.set_header('Retry-After', '99')
+                resp.set_header('X-St', 'set before the status')
             raised['site'] = site
             raise the_exc
         return go
@@ -613,6 +620,8 @@ def run(ctx):
     if pre_kind:
         ctx.probe('pre_request')
         own = set(['content-type', 'content-length', 'vary'])
+        if pre_same:
+            own |= {'x-err', 'retry-after', 'x-st'}     # set by this request itself before the raise
         for src in (want[1] if want[0] in ('http', 'status') else None,):
             if isinstance(src, dict):
                 hh = src.get('headers')
